@@ -237,7 +237,7 @@ fn c10_block_values_fixedstep() {
 }
 
 // @harness c03_query_end_to_end
-// @props C03 C05 C10 C01
+// @props C03 C10
 // @tier quick
 // @kind core
 // @timeout 2400
